@@ -7,8 +7,8 @@ ids=$(python3 -c "import json;print(' '.join(c['property_id'] for c in json.load
 fail=0
 for id in $ids; do
   lc=$(echo "$id" | tr 'A-Z' 'a-z')
-  mod=$(python3 -c "import json;print(json.load(open('props/$id.json'))['props_module'])")
-  (cd lean && lake build "$mod" "yuivd_$lc") || { echo "setup: lean build failed for $id"; fail=1; }
+  mod=$(python3 -c "import json;d=json.load(open('props/$id.json'));print(' '.join([d['props_module']]+d.get('extra_props_modules',[])))")
+  (cd lean && lake build $mod "yuivd_$lc") || { echo "setup: lean build failed for $id"; fail=1; }
 done
 for id in $ids; do
   lc=$(echo "$id" | tr 'A-Z' 'a-z')
